@@ -232,8 +232,9 @@ def build_driver(name, **kw):
     return j[0]
 
 
-def prune(keep=3):
-    """keep the `keep` most recently used tree directories"""
+def prune(keep=3, min_age=3 * 3600):
+    """keep the `keep` most recently used tree directories, and never remove one used in the last `min_age` seconds
+    (another check may be running against a different tree at the same time)"""
     if not os.path.isdir(CACHE):
         return
     cur = tree_hash()
@@ -241,8 +242,9 @@ def prune(keep=3):
     if cur in dirs:
         os.utime(os.path.join(CACHE, cur))
     dirs.sort(key=lambda d: os.path.getmtime(os.path.join(CACHE, d)), reverse=True)
+    now = time.time()
     for d in dirs[keep:]:
-        if d != cur:
+        if d != cur and now - os.path.getmtime(os.path.join(CACHE, d)) > min_age:
             shutil.rmtree(os.path.join(CACHE, d), ignore_errors=True)
 
 
